@@ -27,7 +27,7 @@ EXTENDS Integers, Sequences, FiniteSets, TLC, Json
 CONSTANT ParserLimit, DataLimit
 Guarded == {"eval_expr"}
 \* shapes whose depth is the depth of the program text / syntax tree
-TextShapes == {"paren", "bracket", "unary_not", "unary_minus", "binary_right", "binary_left", "call_args", "index_chain", "member_chain",
+TextShapes == {"chain_sum", "paren", "bracket", "unary_not", "unary_minus", "binary_right", "binary_left", "call_args", "index_chain", "member_chain",
                "nested_block", "nested_if", "nested_loop", "nested_def", "else_chain"}
 \* [from, to, shape]
 Edges == {
@@ -39,6 +39,9 @@ Edges == {
   \* resolver / cfg lowering walk the TREE: also depth the parser builds in a loop
   <<"check_expr", "check_expr", "binary_left">>, <<"check_expr", "check_expr", "index_chain">>, <<"check_expr", "check_expr", "member_chain">>,
   <<"check_block", "check_block", "nested_block">>, <<"lower_block", "lower_block", "nested_if">>,
+  \* chains at many nesting levels add up in the TREE although no level is deep in the text (bounded by the tree-depth
+  \* measurement after parsing, 98da262); the scanner's error recovery is a loop (ba1fd0a), not a frame kind any more
+  <<"check_expr", "check_expr", "chain_sum">>,
   \* runtime: every expression nesting and every call goes through eval_expr
   <<"eval_expr", "eval_expr", "rt_nested_expr">>,
   <<"eval_expr", "call", "rec_direct">>, <<"call", "exec_block", "rec_direct">>, <<"exec_block", "eval_expr", "rec_direct">>,
